@@ -69,7 +69,10 @@ def build_arg(a):
         return a
     kw = {"total": a.get("total", 10), "redirect": a.get("redirect"), "raise_on_redirect": a.get("ror", True)}
     if a.get("remove") is not None:
-        kw["remove_headers_on_redirect"] = list(a["remove"])
+        # the container type the caller uses for the names is free (list / tuple / set / frozenset, e.g.
+        # `Retry.DEFAULT_REMOVE_HEADERS_ON_REDIRECT | {"X-Secret"}`); the policy is the set of lower-cased names
+        mk = {"list": list, "tuple": tuple, "set": set, "frozenset": frozenset}[a.get("rmtype", "list")]
+        kw["remove_headers_on_redirect"] = mk(a["remove"])
     return Retry(**kw)
 
 
@@ -424,6 +427,7 @@ def gen_policy(rng, bounded=True):
     d = {"ror": ror}
     if rm is not None:
         d["remove"] = rm
+        d["rmtype"] = rng.choice(["list", "frozenset", "tuple", "set", "frozenset"])
     if k in (4, 5, 6):
         d["redirect"] = rng.choice([0, 1, 2, 3, False])
         if rng.random() < 0.3:
